@@ -319,6 +319,17 @@ func c17Body(c *c17Case, o *c17Obs) func() {
 			md := ""
 			if len(c.Keys) > 0 {
 				md = c17MDString(client.FromContext(ctx).Metadata.Get(c.Keys[0]))
+				// "each batch is sent with EXACTLY its group's metadata": nothing of what the arrivals carried besides the
+				// configured keys (every arrival has an entry of its own under "x-call") travels with the batch
+				for k := range client.FromContext(ctx).Metadata.Keys() {
+					configured := false
+					for _, ck := range c.Keys {
+						configured = configured || strings.EqualFold(ck, k)
+					}
+					if !configured {
+						o.violations = append(o.violations, fmt.Sprintf("foreign-metadata: a batch of group %q was sent with metadata entry %q=%v, which is not one of the configured metadata_keys %v", md, k, client.FromContext(ctx).Metadata.Get(k), c.Keys))
+					}
+				}
 			}
 			sinkCalls++
 			for _, k := range c.SinkFail {
@@ -391,6 +402,7 @@ func c17Body(c *c17Case, o *c17Obs) func() {
 		})
 		var wg vs.WaitGroup
 		ctr := 0
+		callNo := 0
 		for pi, sends := range c.Producers {
 			sends := sends
 			wg.Add(1)
@@ -402,7 +414,8 @@ func c17Body(c *c17Case, o *c17Obs) func() {
 					}
 					ctx := context.Background()
 					if sd.MD != "" {
-						ctx = client.NewContext(ctx, client.Info{Metadata: client.NewMetadata(map[string][]string{"k": c17MDVals(sd.MD)})})
+						callNo++
+						ctx = client.NewContext(ctx, client.Info{Metadata: client.NewMetadata(map[string][]string{"k": c17MDVals(sd.MD), "x-call": {fmt.Sprint(callNo)}})})
 					}
 					ids, err := consume(ctx, sd.Shape, &ctr)
 					for _, id := range ids {
